@@ -31,7 +31,7 @@ RULE = (
 )
 ASSUMPTIONS = ["one tamper at a time (plus a drawn share of double tampers); chain file content edits are outside the statement"]
 BUDGET = {"quick": (100, 4), "thorough": (7200, 16)}
-REQUIRED = ["invoked_above_all_histories", "leftover_partial_files", "older_generation", "nested_victim", "bitflip", "removed", "swapped_generation", "whitespace_only_edit", "chain_removed", "flatten", "info_sf_noroot"]
+REQUIRED = ["generation>=10_victim", "invoked_above_all_histories", "leftover_partial_files", "older_generation", "nested_victim", "bitflip", "removed", "swapped_generation", "whitespace_only_edit", "chain_removed", "flatten", "info_sf_noroot"]
 
 P1 = {
     "kinds": ["create"] * 6 + ["create_sf"] * 2 + ["put_new"] * 2 + ["overwrite", "mkdir"],
@@ -78,6 +78,45 @@ def enumerated(tier):
     chunk = 256
     for start in range(0, 4096, chunk):
         yield {"kind": "bytesweep", "start": start, "end": start + chunk, "step": step}
+    # histories with more than nine generations (root and nested): every manifest from generation 9 on, edited / removed
+    yield {"kind": "longhist", "gens": 14}
+    yield {"kind": "longhist", "gens": 12}
+
+
+def run_longhist(scn, ctx):
+    with World("c05l") as w:
+        w.build("R", {"a.txt": "alpha", "kid": {"b.bin": "beta"}})
+        for i in range(scn["gens"]):
+            res = w.create("R/kid" if i % 5 == 4 else "R", ["md5"])
+            require(res.exit_code == 0, "setup", res.brief(), res)
+        n = 0
+        for h in ("R", "R/kid"):
+            for num, mp in w.manifests(h):
+                if num < 9:
+                    continue
+                path = w.abs(mp)
+                original = open(path, "rb").read()
+                st_ = os.stat(path)
+                for edit, want in (("append", 31), ("remove", 33)):
+                    if edit == "append":
+                        with open(path, "ab") as fh:
+                            fh.write(b"\n")
+                        os.utime(path, ns=(st_.st_atime_ns, st_.st_mtime_ns))
+                    else:
+                        os.remove(path)
+                    before = w.snapshot()
+                    for cmd in ("info", "verify", "diff", "create"):
+                        res = w.run("create", [w.abs("R"), "-h", "md5"]) if cmd == "create" else getattr(w, cmd)("R")
+                        require(res.exit_code == want and res.exc is None, "exit-code", "%s with generation %d of %r %s: %s" % (cmd, num, h, "edited" if edit == "append" else "removed", res.brief()), res)
+                        n += 1
+                    require(w.snapshot() == before, "writes-nothing", "disk changed while refusing (generation %d of %r)" % (num, h), None)
+                    with open(path, "wb") as fh:
+                        fh.write(original)
+                    os.utime(path, ns=(st_.st_atime_ns, st_.st_mtime_ns))
+        ctx.event("generation>=10_victim", n)
+        ctx.event("older_generation")
+        ctx.mark_nontrivial(n > 0)
+        return w.trace
 
 
 def run_bytesweep(scn, ctx):
@@ -210,6 +249,8 @@ def run_commands(w, scn, T, files_below, victim_hist, expect, ctx, label, ev):
 def run_case(scn, ctx):
     if scn.get("kind") == "bytesweep":
         return run_bytesweep(scn, ctx)
+    if scn.get("kind") == "longhist":
+        return run_longhist(scn, ctx)
     with World("c05") as w:
         hist.setup_world(w, scn)
         top = scn["root"]
